@@ -221,7 +221,7 @@ def gen_cases(rng, tier):
             p[DATA] = [rng.randint(0, 255) for _ in range(rng.randint(0, 13))]
             add(["enc_scp", p, k], "lengths", iso=(DATA, i))
     # -- random valid packets
-    n = 3000 if tier == "quick" else 60000
+    n = 2000 if tier == "quick" else 60000
     for j in range(n):
         if j % 4 == 0:
             add(["enc_sdp", rand_packet(rng)[:11]], "valid")
@@ -422,6 +422,19 @@ def gen_histories(rng, tier):
                     bs, n = datagram(h, kk)
                     steps.append(["dec", kk, bs, n])
                 out.append(["hist_dec", steps])
+    # -- decode from the caller's buffer (bytes / bytearray / memoryview of a bytearray), the caller then reuses its
+    #    buffer for the next datagram (recv_into style), the packet decoded earlier is looked at again.  (Aliasing
+    #    through a memoryview the caller passed in itself is the caller's choice: overwrite only for bytearray.)
+    for rep in range(12 * scale):
+        for kind in ("sdp", "scp"):
+            for bt in ("bytearray", "bytes", "memoryview"):
+                bs, n = datagram(rand_packet(rng)[:10], kind)
+                bs2, n2 = datagram(rand_packet(rng)[:10], kind)
+                steps = [["decbuf", kind, bs, n, bt]]
+                if bt == "bytearray":
+                    steps.append(["overwrite", 0, bs2])
+                steps += [["recheck", 0], ["decbuf", kind, bs2, n2, bt], ["recheck", 0], ["recheck", 1]]
+                out.append(["hist_dec", steps])
     for j in range(150 * scale):
         pool = [rand_packet(rng)[:10] for _ in range(rng.randint(1, 3))]
         steps, nobj = [], 0
@@ -448,9 +461,13 @@ def history_steps(h):
     """the judged steps of a history as ordinary cases: what a codec without memory is asked at each step"""
     out = []
     if h[0] == "hist_dec":
+        made = []
         for st in h[1]:
-            if st[0] == "dec":
-                out.append(["dec_scp", st[2], st[3]] if st[1] == "scp" else ["dec_sdp", st[2]])
+            if st[0] in ("dec", "decbuf"):
+                made.append(["dec_scp", st[2], st[3]] if st[1] == "scp" else ["dec_sdp", st[2]])
+                out.append(made[-1])
+            elif st[0] == "recheck":              # still the decoding of the bytes it was decoded from
+                out.append(made[st[1]])
         return out
     cur = plain_packet(h[2])
     for op in h[4]:
@@ -751,11 +768,36 @@ def run(chk, args):
     schunks = [sweeps[i:i + 4] for i in range(0, len(sweeps), 4)]
     steps = [history_steps(h) for h in hists]        # (also resolves the n_args of the enc steps in place)
     hchunks = [hists[i:i + 400] for i in range(0, len(hists), 400)]
-    res = chk.impl_parallel("impl_c15.py", chunks + schunks + hchunks)
+    tcase = None
+    if not args.replay or any("threads" in r for r in items):
+        trng = chk.rng if not args.replay else None
+        if args.replay:
+            tcase = [r["threads"] for r in items if "threads" in r][0]
+        else:
+            per = []
+            for t in range(6):
+                qs = []
+                for j in range(6):
+                    q = rand_packet(trng)
+                    q[DATA] = [t * 16 + j] * trng.choice([0, 1, 7, 40, 200, 256, 600])
+                    qs.append([q, layout_scp(q)])
+                per.append(qs)
+            tcase = ["threads", per, 2.5 if chk.tier == "quick" else 20]
+    res = chk.impl_parallel("impl_c15.py", chunks + schunks + hchunks + ([[tcase]] if tcase else []))
     outs = [o for part in res[:len(chunks)] for o in part]
     souts = [o for part in res[len(chunks):len(chunks) + len(schunks)] for o in part]
-    houts = [o for part in res[len(chunks) + len(schunks):] for o in part]
+    houts = [o for part in res[len(chunks) + len(schunks):len(chunks) + len(schunks) + len(hchunks)] for o in part]
+    touts = res[len(chunks) + len(schunks) + len(hchunks)] if tcase else None
     reported = set()
+    # threaded search: N threads encode their own packets at once; every result against the independent encoder
+    if touts:
+        t = touts[0]
+        chk.count("threaded-encodes", t[2])
+        chk.evaluations += t[2]
+        if t[1]:
+            th, q, got = t[1][0]
+            chk.fail_input("threads-encode", "with %d threads encoding at once, thread %d encoding %r got %r, documented %r"
+                           % (len(tcase[1]), th, q, got, layout_scp(q)), dict(threads=tcase, observed=t[1][0]))
     # every judged step of a history becomes an ordinary case: same oracle, same model (a pure function of the
     # current field values / of the datagram), remembered together with the history that led to it
     for h, st, ho in zip(hists, steps, houts):
@@ -765,7 +807,12 @@ def run(chk, args):
             continue
         for i, (vc, o) in enumerate(zip(st, ho[1])):
             cases.append(dict(case=vc, stream="reuse-" + h[0][5:], hist=(h, i)))
-            outs.append(o)
+            outs.append(o[:2] if h[0] == "hist_dec" else o)
+            if h[0] == "hist_dec" and len(o) > 2 and o[0] == "ok" and len(vc[1]) > 2 and vc[1][2] in (0x87, 0x07) and o[2] != ["ok", vc[1]]:
+                # a decoded packet re-encodes to the bytes it was decoded from (any n_args: arguments taken and
+                # the rest of the payload are the same bytes in the same order)
+                chk.fail_input("reuse-reencode", "step %d of a history: the packet decoded from %r now encodes to %r"
+                               % (i, vc[1], o[2]), dict(history=h, step=i, case=vc, observed=o))
     flat = [plain_case(x["case"]) for x in cases]     # what the oracle and the model are asked: int(x) / bool(x)
     hits = set()                                      # indices on which the oracle reported a failing input
 
@@ -843,7 +890,7 @@ def run(chk, args):
                            "decoding, error class; 2^16 sweeps of cmd_rc and seq by digest)" % len(mcases), True)
             # the decodings rig made of its own encodings, decoded by the model from the same bytes
             rt = [(c, o) for c, o in zip(flat, outs) if c[0] in ("enc_sdp", "enc_scp") and o[0] == "ok"]
-            rt = rt[:1500] if chk.tier == "quick" else rt[:30000]
+            rt = rt[:800] if chk.tier == "quick" else rt[:30000]
             dcs = [["dec_sdp", o[1]] if c[0] == "enc_sdp" else ["dec_scp", o[1], c[2]] for c, o in rt]
             vals = chk.coq_eval(HEADER, [coq_expr(d) for d in dcs], shard=250, name="rt")
             bad = 0
@@ -871,5 +918,9 @@ def run(chk, args):
         "judged against the current values; error-path histories (an encode that raises because a field is None "
         "or outside its width, each header/SCP field in turn, then the field repaired and the same object encoded "
         "again); field values given as numpy integer scalars of all eight types (model and oracle see int(x)), "
-        "flags given as True/False/1/0/2/numpy.bool_ (bool(x)). non-trivial = encoding of an in-width packet that "
+        "flags given as True/False/1/0/2/numpy.bool_ (bool(x)); decoding from a caller's bytes / bytearray / "
+        "memoryview, the bytearray then overwritten in place, the earlier packet's fields and re-encoding checked "
+        "again; a threaded SEARCH (6 threads encoding their own packets at once for 2.5 s, switch interval 1e-6, "
+        "every result against the independent encoder -- finding nothing proves nothing about thread safety). "
+        "non-trivial = encoding of an in-width packet that "
         "succeeds, or decoding of a string holding a complete header; distinct by hash of the whole case")
